@@ -15,7 +15,9 @@ package c13
 import (
 	"encoding/json"
 	"fmt"
+	"runtime"
 	"sort"
+	"strings"
 	"testing"
 	"time"
 
@@ -61,10 +63,47 @@ type Case struct {
 var msizes = []uint32{64, 100, 256, 1024, 4096}
 
 const (
-	hangAfter = 20 * time.Second
+	hangAfter = 45 * time.Second
 	pollEvery = 10 * time.Millisecond
-	idlePolls = 80 // consecutive polls without any activity while the transport is drained
+	idlePolls = 80 // consecutive polls without any activity while the transport is drained, after which quiescence is examined
 )
+
+// go9pQuiescent decides, from a goroutine dump, whether the library can still
+// do anything on its own: every goroutine with a go9p frame is blocked (channel,
+// select, mutex, cond) and the receive loop named by recvFn is parked in the
+// harness transport's Read. Together with a drained transport and a harness
+// that is only waiting, this state cannot change any more, so "the missing
+// reply will never come" is a fact, not a timeout.
+func go9pQuiescent(recvFn string) bool {
+	buf := make([]byte, 1<<23)
+	n := runtime.Stack(buf, true)
+	if n == len(buf) {
+		return false
+	}
+	parked := false
+	for _, blk := range strings.Split(string(buf[:n]), "\n\n") {
+		if !strings.Contains(blk, "github.com/rminnich/go9p.") {
+			continue
+		}
+		head, _, _ := strings.Cut(blk, "\n")
+		blocked := false
+		for _, w := range []string{"[chan receive", "[chan send", "[select", "[sync.Cond.Wait", "[semacquire", "[sync.Mutex.Lock", "[sync.RWMutex"} {
+			if strings.Contains(head, w) {
+				blocked = true
+			}
+		}
+		if !blocked {
+			return false
+		}
+		if strings.Contains(blk, recvFn) {
+			if !strings.Contains(head, "[sync.Cond.Wait") || !strings.Contains(blk, "xport.(*half).read") {
+				return false
+			}
+			parked = true
+		}
+	}
+	return parked
+}
 
 type hangErr string
 
